@@ -694,7 +694,7 @@ pub fn run(p: &Params) -> Report {
     }
     rep.count("exhaustive: all programs of length <= 4 over the 16-instruction alphabet (this shard's share)");
     // (ii)
-    let n2 = p.share(p.n(400_000, 10_000_000));
+    let n2 = if cfg!(miri) { 16 } else { p.share(p.n(400_000, 10_000_000)) };
     for k in 0..n2 {
         let ops = gen_program(&mut r);
         let h = &hs[r.usize(hs.len())];
@@ -740,7 +740,7 @@ pub fn run(p: &Params) -> Report {
         }
     }
     // (iii)
-    let n3 = p.share(p.n(300_000, 8_000_000));
+    let n3 = if cfg!(miri) { 16 } else { p.share(p.n(300_000, 8_000_000)) };
     for _ in 0..n3 {
         let n_ops = 1 + r.usize(12);
         let ops: Vec<Op> = (0..n_ops).map(|_| crate::mon::c12::random_op(&mut r, false)).collect();
@@ -748,7 +748,7 @@ pub fn run(p: &Params) -> Report {
         compare(&mut rep, &ops, h, "random-decodable", true);
     }
     // (iv) environment
-    let n4 = p.share(p.n(40_000, 1_000_000));
+    let n4 = if cfg!(miri) { 4 } else { p.share(p.n(40_000, 1_000_000)) };
     for k in 0..n4 {
         rep.eval();
         let tx = rand_tx(&mut r);
